@@ -1,5 +1,15 @@
 import ScriggoV.Model.GoStmt
+import ScriggoV.Model.CaseBuf
 /-! line protocol of C14:
+  `seq <mode> <fuel> <chans> <ops>`   the channel operations of one goroutine in sequence (Model/ChanSeq.lean)
+     mode  = go (Go's reading) | vm (the VM's reading with a Done channel that is never ready,
+             under the buffer policy read off run.go, Model/CaseBuf.lean)
+     chans = tokens separated by `:` — nch (cap closed nil nvals val^nvals)^nch
+     ops   = tokens separated by `:` — k op^k;
+             op := S ch v | R ch | K ch | F ch k op^k | X n dflt case^n | C ch | L ch | Z ch;
+             case := r ch form | s ch v
+     answer = `ok <trace separated by , or -> done` | `err <blocked|panic|stopped|wrongJump|nofuel> <trace so far is not given>`
+
   `run <level> <N> <M> <fp0> <caps> <heap> <fuel> <seed> <prog>`
      level = src | vm | vmshare     (source-level system, VM-level system, VM with shared window)
      caps  = channel capacities separated by `,` (`-` = no channels); heap = number of shared cells
@@ -91,7 +101,99 @@ def parseProg (s : String) : Option (List (List Stmt)) := do
 def showTrace (l : List Int) : String :=
   if l.isEmpty then "-" else ",".intercalate (l.map toString)
 
+/-! ### channel operations in sequence -/
+section Seq
+open ScriggoV.ChanSeq
+
+def pInt : Toks → Option (Int × Toks)
+  | t :: ts => t.toInt?.map (fun n => (n, ts))
+  | [] => none
+
+def pVals : Nat → Toks → Option (List Int × Toks)
+  | 0, ts => some ([], ts)
+  | n + 1, ts => do
+    let (v, r) ← pInt ts
+    let (vs, r) ← pVals n r
+    pure (v :: vs, r)
+
+def pChans : Nat → Toks → Option (List Ch × Toks)
+  | 0, ts => some ([], ts)
+  | n + 1, ts => do
+    let (cap, r) ← pNat ts
+    let (cl, r) ← pNat r
+    let (nl, r) ← pNat r
+    let (k, r) ← pNat r
+    let (vs, r) ← pVals k r
+    let (cs, r) ← pChans n r
+    pure (⟨cap, vs, cl != 0, nl != 0⟩ :: cs, r)
+
+def pCases : Nat → Toks → Option (List SCase × Toks)
+  | 0, ts => some ([], ts)
+  | n + 1, t :: ts => do
+    let (c, r) ← match t with
+      | "r" => do let (ch, r) ← pNat ts; let (f, r) ← pNat r; pure (SCase.recv ch f, r)
+      | "s" => do let (ch, r) ← pNat ts; let (v, r) ← pInt r; pure (SCase.send ch v, r)
+      | _ => none
+    let (cs, r) ← pCases n r
+    pure (c :: cs, r)
+  | _ + 1, [] => none
+
+mutual
+def pOp : Nat → Toks → Option (Op × Toks)
+  | 0, _ => none
+  | fuel + 1, t :: ts =>
+    match t with
+    | "S" => do let (c, r) ← pNat ts; let (v, r) ← pInt r; pure (.send c v, r)
+    | "R" => do let (c, r) ← pNat ts; pure (.recv c, r)
+    | "K" => do let (c, r) ← pNat ts; pure (.recvOk c, r)
+    | "C" => do let (c, r) ← pNat ts; pure (.close c, r)
+    | "L" => do let (c, r) ← pNat ts; pure (.lenCap c, r)
+    | "Z" => do let (c, r) ← pNat ts; pure (.setNil c, r)
+    | "F" => do
+      let (c, r) ← pNat ts
+      let (k, r) ← pNat r
+      let (body, r) ← pOps fuel k r
+      pure (.range c body, r)
+    | "X" => do
+      let (n, r) ← pNat ts
+      let (d, r) ← pNat r
+      let (cs, r) ← pCases n r
+      pure (.sel cs (d != 0), r)
+    | _ => none
+  | _, [] => none
+def pOps : Nat → Nat → Toks → Option (List Op × Toks)
+  | 0, _, _ => none
+  | _ + 1, 0, ts => some ([], ts)
+  | fuel + 1, k + 1, ts => do
+    let (o, r) ← pOp fuel ts
+    let (os, r) ← pOps fuel k r
+    pure (o :: os, r)
+end
+
+def showErr : Err → String
+  | .blocked => "blocked" | .panic => "panic" | .stopped => "stopped"
+  | .wrongJump => "wrongJump" | .nofuel => "nofuel"
+
+def handleSeq (mode fuel chans ops : String) : Option String := do
+  let fuel ← fuel.toNat?
+  let (nch, r) ← pNat (chans.splitOn ":")
+  let (chs, r) ← pChans nch r
+  if !r.isEmpty then none
+  let (k, r) ← pNat (ops.splitOn ":")
+  let (code, r) ← pOps 4096 k r
+  if !r.isEmpty then none
+  let res ← match mode with
+    | "go" => some (run false Policy.good fuel ⟨code, chs, [], []⟩)
+    | "vm" => some (run true ScriggoV.CaseBuf.policyOfCode fuel ⟨code, chs, [], []⟩)
+    | _ => none
+  match res with
+  | .ok c => pure s!"ok {showTrace c.trace} done"
+  | .error e => pure s!"err {showErr e}"
+
+end Seq
+
 def handle : List String → Option String
+  | ["seq", mode, fuel, chans, ops] => handleSeq mode fuel chans ops
   | ["run", level, n, m, fp0, caps, heap, fuel, seed, prog] => do
     let N ← n.toNat?
     let M ← m.toNat?
